@@ -27,6 +27,20 @@ CHECKS['C06'] = dict(
          'SelectedUnion k=1/k=all coincidences are proved as relational queries over several real command executions in one path.',
     note='Trusted: z3 (nonlinear real arithmetic for XOr), symnp validated per path, reference terms in mpv/oracle.py; exact real arithmetic, not IEEE rounding.',
     ref='DESIGN.md §2 C06')
+CHECKS['C07'] = dict(
+    technique='symbolic execution of the real arithmetic commands over every int64/float64 type vector; value/mask/type obligations and order-invariance as z3 validity queries',
+    text='Bounded symbolic model checking of Sum, WeightedSum, Multiply, AMinusB, ADividedByB, Minimum, Maximum, Mean, WeightedMean, Copy: for every element-type vector in {int,float}^k '
+         'and symbolic values/weights the result is proved equal to the arithmetic definition (division by zero => missing), commutative commands are run in both orders of every adjacent '
+         'transposition in one path and must succeed or fail alike with equal results, and shape / weight-count / empty-list faults must raise their specific errors.',
+    note='Trusted: z3, symnp incl. numpy same-kind casting rule (validated per path against real numpy), reals/integers for float64/int64.',
+    ref='DESIGN.md §2 C07')
+CHECKS['C08'] = dict(
+    technique='symbolic execution of the real conversion/normalisation commands vs reference mappings (control points in symbolic order; sqrt as defined value), decided by z3 with ite case-splitting',
+    text='Bounded symbolic model checking of the 14 conversion/normalisation commands present in the libraries: value == documented mapping per cell (thresholds explicit or defaulted by direction, '
+         'category lookup, piecewise-linear curve with control points in any order, z-score and mean-to-mid statistics over non-missing cells), CvtFromFuzzy(CvtToFuzzy(x)) == x between the '
+         'thresholds, each CvtToFuzzy variant == clamp(Normalize counterpart on [-1,1]) run side by side, and order preservation of monotone mappings.',
+    note='Trusted: z3 NRA, symnp validated per path, mpv/oracle.py; NormalizeZScore default thresholds not asserted (docs and code disagree); exact reals.',
+    ref='DESIGN.md §2 C08')
 NOT_YET = {}
 ALL = ['C%02d' % i for i in range(1, 21)]
 
